@@ -6,3 +6,13 @@ import AbraModel.Arena
 import AbraModel.Drv.Arena
 import AbraModel.Lib.Sort
 import AbraModel.Drv.Sort
+import AbraModel.CallOrder
+import AbraModel.Drv.CallOrder
+import AbraModel.Pratt
+import AbraModel.Drv.Pratt
+import AbraModel.StrOps
+import AbraModel.Drv.StrOps
+import AbraModel.SrcMap
+import AbraModel.Drv.SrcMap
+import AbraModel.Sched
+import AbraModel.Drv.Sched
